@@ -474,6 +474,9 @@ struct UdpObs {
     /// replies produced by the other UDP target than the one the datagram was addressed to
     wrong_target: usize,
     two_targets_used: bool,
+    /// datagrams sent / replies received after the socket had been idle for 11 s
+    after_idle_sent: usize,
+    after_idle_replies: usize,
     bad_header: Vec<String>,
     assoc_err: Option<String>,
 }
@@ -571,6 +574,37 @@ async fn udp_client(env: Arc<Env>, seed: u64, cid: u64, socks5: bool, n: usize, 
         collect(&sock, dest, socks5, cid, &expected, &mut seen, &mut o, deadline).await;
     }
     collect(&sock, dest, socks5, cid, &expected, &mut seen, &mut o, Instant::now() + Duration::from_millis(400)).await;
+    if cid % 4 == 0 {
+        // the same local socket falls silent for longer than the relay's idle time-out (10 s), then resumes:
+        // the first datagram may be lost while the relay is set up again, the flow must not stay dead
+        tokio::time::sleep(Duration::from_millis(11_000)).await;
+        let before = o.replies;
+        for k in 0..6u32 {
+            let seq = n as u32 + k;
+            let mut req = cid.to_be_bytes().to_vec();
+            req.push((seq & 0xff) as u8);
+            req.push(1);
+            req.extend(seq.to_be_bytes());
+            req.extend(prf_vec(mix(seed, cid * 1000 + u64::from(seq)), 0, 32));
+            let mut out = vec![b'R', 0];
+            out.extend_from_slice(&req);
+            expected.insert((seq, 0), out);
+            let wire = if socks5 {
+                let mut w = vec![0u8, 0, 0, 1, 127, 0, 0, 1];
+                w.extend(env.udp_target_port.to_be_bytes());
+                w.extend(&req);
+                w
+            } else {
+                req.clone()
+            };
+            if sock.send_to(&wire, dest).await.is_ok() {
+                o.after_idle_sent += 1;
+            }
+            collect(&sock, dest, socks5, cid, &expected, &mut seen, &mut o, Instant::now() + Duration::from_millis(200)).await;
+        }
+        collect(&sock, dest, socks5, cid, &expected, &mut seen, &mut o, Instant::now() + Duration::from_millis(400)).await;
+        o.after_idle_replies = o.replies - before;
+    }
     o
 }
 
@@ -903,6 +937,12 @@ fn judge(st: &mut Stats, seed: u64, out: &RunOut) {
         }
         if o.corrupted > 0 {
             st.violation(Violation { signature: format!("udp-corrupted|{kind}"), detail: format!("{} replies do not match any reply the target sent for this client (payload modified)", o.corrupted), replay: replay() });
+        }
+        if o.after_idle_sent > 0 {
+            st.target("udp_flows_resumed_after_idle", 1);
+            if o.after_idle_sent >= 5 && o.after_idle_replies == 0 {
+                st.violation(Violation { signature: format!("udp-flow-dead-after-idle|{kind}"), detail: format!("the local socket was silent for 11 s and then sent {} datagrams at 200 ms intervals: not one reply came back although the exchange worked before the pause ({} replies): the flow stays black-holed", o.after_idle_sent, o.replies - o.after_idle_replies), replay: replay() });
+            }
         }
         if o.sent >= 5 && o.replies == 0 {
             st.violation(Violation { signature: format!("udp-nothing-delivered|{kind}"), detail: format!("{} datagrams were sent at a moderate pace and not a single reply came back", o.sent), replay: replay() });
